@@ -663,6 +663,21 @@ def execute(sc, sched: Choices, cls, cfg):
         elif block[2] != single[2]:
             add(dict(site_bw, check="blockwise_count", outcome="value_diff"), single[2], block[2])
 
+    # ---- the same call again after a call in which a fault fired: nothing of the failed call may stick ----
+    if fault_fired and not skip_bw:
+        ctx2 = executor.SimContext(sched=sched, workers=sc["workers"], cpu_count=4, monitor=False)
+        with executor.use_context(ctx2):
+            again = _outcome(lambda: _call(kernel, codes_in, bw_values, ngroups, mask_in, n_threads, rc))
+        rec["probes"].append("retry_after_fault")
+        site_rt = dict(site_base, check="retry_after_fault")
+        if single[0] == "raise":
+            if again[0] != "raise":
+                add(dict(site_rt, outcome="returns_vs_raises", exc=single[1]), f"raise {single[1]}", again[1])
+        elif again[0] == "raise":
+            add(dict(site_rt, outcome="raises_vs_returns", exc=again[1]), single[1], f"{again[1]}: {again[2]}")
+        elif not lists_same(again[1], single[1], tol) or again[2] != single[2]:
+            add(dict(site_rt, outcome="value_diff"), (single[1], single[2]), (again[1], again[2]))
+
     # ---- probes / non-triviality ----
     if not ref_raises:
         blocks = _blocks(sc, rows)
